@@ -59,7 +59,9 @@ func TestForwardDifferential(t *testing.T) {
 	const check = "forward_differential"
 	stats.Rule(check, "type shapes and values as in C01 (half constructed valid, half free so that rule violations occur); Encode with validation off and on is compared byte for byte with a reference encoder written from the wire description (little-endian numbers, 0/1 bools, configured prefix widths, uint8/uint32 type codes, uint32 optional marker, LE uint256, saturating ns time stamps, map entries in byte-lexical order, sorted slices where the settings ask for it); the reference also decides whether any encoding exists (bounds, UTF-8, no-dup, lexical order, at-most-one-type, must-occur, nil pointers/interfaces, uint256 range) and Encode must agree. Distinct by (shape, value); non-trivial = depth >= 2 and >= 2 feature classes")
 	rapid.Check(t, func(rt *rapid.T) {
-		c := serixgen.NewCase(rt, cfg())
+		conf := cfg()
+		conf.FocusTypeRules = rapid.IntRange(0, 5).Draw(rt, "focusTypeRules") == 0
+		c := serixgen.NewCase(rt, conf)
 		mode := serixgen.ValidMode
 		if rapid.Bool().Draw(rt, "free") {
 			mode = serixgen.FreeMode
